@@ -1470,12 +1470,19 @@ impl PeerConnection {
                 }
             }
         };
-        if self.inner.dtls_transport.lock().is_some()
-            && *self.inner.remote_dtls_fingerprint.lock() != remote_dtls_fingerprint
         {
-            return Err(RtcError::InvalidState(
-                "changing remote DTLS fingerprint after transport start is not supported".into(),
-            ));
+            // Check and cache the remote fingerprint in one step, before anything else is
+            // applied and before ICE/DTLS can start, so the handshake binds the SDP identity
+            // to the certificate presented on the wire and a refusal leaves nothing changed.
+            let dtls_started = self.inner.dtls_transport.lock().is_some();
+            let mut stored = self.inner.remote_dtls_fingerprint.lock();
+            if dtls_started && *stored != remote_dtls_fingerprint {
+                return Err(RtcError::InvalidState(
+                    "changing remote DTLS fingerprint after transport start is not supported"
+                        .into(),
+                ));
+            }
+            *stored = remote_dtls_fingerprint;
         }
 
         let previous_remote = self.inner.remote_description.lock().clone();
@@ -1575,20 +1582,6 @@ impl PeerConnection {
                     let _ = self.inner.dtls_role.send(Some(r));
                 }
             }
-        }
-
-        {
-            // Cache the remote fingerprint before ICE/DTLS starts so the handshake can bind
-            // the SDP identity to the certificate actually presented on the wire.
-            let dtls_started = self.inner.dtls_transport.lock().is_some();
-            let mut stored = self.inner.remote_dtls_fingerprint.lock();
-            if dtls_started && *stored != remote_dtls_fingerprint {
-                return Err(RtcError::InvalidState(
-                    "changing remote DTLS fingerprint after transport start is not supported"
-                        .into(),
-                ));
-            }
-            *stored = remote_dtls_fingerprint;
         }
 
         // Publish the remote description before ICE can start: as soon as ICE connects, a
